@@ -619,6 +619,13 @@ func (g *Gen) next(t Tree) Op {
 			if len(ms) == 0 {
 				continue
 			}
+			if !g.o.Twins && r.Intn(8) == 0 {
+				// one source of the batch cannot be opened when its turn comes (removed or made unreadable after the scan): the call
+				// fails part-way; what it completely wrote before that must be on the tape AND in the index, nothing of the rest
+				if j := r.Intn(len(ms)); ms[j].K == "file" && ms[j].Len > 0 {
+					ms[j].K = "nofile"
+				}
+			}
 			if g.o.Twins {
 				return Op{K: "archive", Members: ms, DSeed: r.Uint64(), Mt: 1600000000}
 			}
@@ -645,6 +652,28 @@ func (g *Gen) next(t Tree) Op {
 				op.N = []int{-7, 9, 100000, 512}[r.Intn(4)]
 				if op.Len+op.N <= 0 {
 					op.N = 0
+				}
+			}
+			if !g.o.Twins && len(files) > 1 && r.Intn(4) == 0 {
+				// a batched update (`stfs operation update` over several files): further members behind the first one; in half of the
+				// batches the source of one of them cannot be opened when its turn comes - the call fails part-way, and what it
+				// completely wrote before that must be on the tape and in the index
+				seen := map[string]bool{f: true}
+				for k := 1 + r.Intn(2); k > 0; k-- {
+					f2 := g.pick(files)
+					if seen[f2] || (hasCodecSuffix(f2) && !g.plainCodec()) {
+						continue
+					}
+					seen[f2] = true
+					m := Op{K: "file", A: f2, Perm: perms[r.Intn(len(perms))]}
+					g.data(&m)
+					if m.Len == 0 {
+						m.Len = 1 + r.Intn(600)
+					}
+					op.Members = append(op.Members, m)
+				}
+				if len(op.Members) > 0 && r.Intn(2) == 0 {
+					op.Members[r.Intn(len(op.Members))].K = "nofile"
 				}
 			}
 			return op
